@@ -343,6 +343,38 @@ def _cond(m, cc):
     return T.cmp(cc, w, a, b)
 
 
+def decode_lenient(items):
+    """like decode, but an undecodable tail becomes one `undecodable` pseudo-instruction (rules that
+    only look at part of a template then report a mismatch instead of failing as a whole)"""
+    try:
+        return decode(items)
+    except Unsupported as e:
+        # decode the longest prefix that does decode
+        lo, hi = 0, len(items)
+        good = []
+        for n in range(len(items), -1, -1):
+            try:
+                good = decode(items[:n])
+                break
+            except Unsupported:
+                continue
+        bad = Insn("undecodable", why=str(e))
+        bad.nbytes = 0
+        bad.lock = False
+        return good + [bad]
+
+
+def run_lenient(insns, m0):
+    """run(), but a construct outside the model ends the run in an `undecodable` state instead of raising"""
+    try:
+        return run(insns, m0)
+    except Unsupported as e:
+        m = m0.copy()
+        m.exit = ("undecodable", str(e))
+        m.events.append(("undecodable", str(e)))
+        return [m]
+
+
 def run(insns, m0):
     """-> list of final machine states (forks at conditional jumps with literal offsets)"""
     done = []
@@ -353,6 +385,10 @@ def run(insns, m0):
             ins = insns[i]
             i += 1
             mn = ins.mn
+            if mn == "undecodable":
+                m.exit = ("undecodable", ins.why)
+                m.events.append(("undecodable", ins.why))
+                continue
             if mn == "alu":
                 w = ins.w
                 if ins.dst[0] == "mem":
